@@ -175,8 +175,6 @@ def check(prog, run):
     # _skip_selection
     sk = prog.get_func(CF, "_skip_selection")
     run.looked_at(sk)
-    rets = [n for n in own_nodes(sk.node) if isinstance(n, ast.Return)]
-    shapes.require(len(rets) == 1, "C04.K2: _skip_selection has no single return")
     binds = {}
     for n in own_nodes(sk.node):
         if isinstance(n, ast.Assign) and isinstance(n.value, ast.Call) and isinstance(n.value.func, ast.Name) and n.value.func.id == "directive_arguments":
@@ -186,32 +184,29 @@ def check(prog, run):
     if set(binds.values()) != {"SkipDirective", "IncludeDirective"}:
         run.report(r, "%s:_skip_selection:directives" % CF, sk.where(), "_skip_selection does not read both @skip and @include: %s" % binds)
     else:
-        expr = boolx.inline_locals(sk.node, rets[0].value, exclude=tuple(binds))
+        # path form of the truth table: what the function returns on each of the 16 assignments of
+        # (skip present, skip.if, include present, include.if), whatever its statement shape
         sv, iv = inv["SkipDirective"], inv["IncludeDirective"]
-
-        def roles_of(node, a):
-            if a == "%s is None" % sv:
-                return ("skip_present", False)
-            if a == "%s is None" % iv:
-                return ("include_present", False)
-            if a == "%s['if']" % sv:
-                return ("skip_if", True)
-            if a == "%s['if']" % iv:
-                return ("include_if", True)
-            if a == sv:
-                return ("skip_present", True)
-            if a == iv:
-                return ("include_present", True)
-            return None
-        roles = _role_atoms(expr, roles_of)
-        vars_ = ["skip_present", "skip_if", "include_present", "include_if"]
-        roles_full = dict(roles)
-        bad = _table_check(expr, roles_full, lambda e: (e["skip_present"] and e["skip_if"]) or (e["include_present"] and not e["include_if"]), vars_)
-        r.instance("_skip_selection condition `%s` (16 rows)" % boolx.text(expr))
+        bad, rows = [], 0
+        for sp in (False, True):
+            for si in (False, True):
+                for ip in (False, True):
+                    for ii in (False, True):
+                        env = {"%s is None" % sv: not sp, sv: sp, "%s['if']" % sv: si,
+                               "%s is None" % iv: not ip, iv: ip, "%s['if']" % iv: ii}
+                        try:
+                            got = boolx.returned_truths(sk.node, lambda t, env=env: env.get(t))
+                        except ValueError as e:
+                            raise AnalysisError("C04.K2: _skip_selection: %s" % e)
+                        want = (sp and si) or (ip and not ii)
+                        rows += 1
+                        if got != {want}:
+                            bad.append({"skip_present": sp, "skip_if": si, "include_present": ip, "include_if": ii, "returns": sorted(map(str, got)), "expected": want})
+        r.instance("_skip_selection truth table (%d rows), %d wrong" % (rows, len(bad)))
         if bad:
-            run.report(r, "%s:_skip_selection:truth-table" % CF, sk.where(rets[0]),
-                       "_skip_selection returns `%s`, which differs from (skip present and skip.if) or (include present and not "
-                       "include.if) on %d of 16 rows, e.g. %s" % (boolx.text(expr), len(bad), bad[0]), {"rows": bad})
+            run.report(r, "%s:_skip_selection:truth-table" % CF, sk.where(),
+                       "_skip_selection differs from (skip present and skip.if) or (include present and not include.if) on %d of 16 "
+                       "rows, e.g. %s" % (len(bad), bad[0]), {"rows": bad})
     # _fragment_type_applies
     fa = prog.get_func(CF, "_fragment_type_applies")
     run.looked_at(fa)
@@ -608,11 +603,16 @@ def check_seen_scope(prog, run, rule_id="K5"):
             if isinstance(n, ast.Call) and isinstance(n.func, ast.Name) and n.func.id == "_merge":
                 return "merge"
             return None
-        def ev2(n, fname=fname):
+        from ..canon import Canon
+        tcn = Canon(target.node)
+
+        def ev2(n, fname=fname, tcn=tcn):
             if isinstance(n, ast.Call) and isinstance(n.func, ast.Name) and n.func.id == fname:
                 return "collect"
+            # _merge(<the collected groups>, ...): directly, or through a local bound to the recursive call
             if isinstance(n, ast.Call) and isinstance(n.func, ast.Name) and n.func.id == "_merge" and any(
-                    isinstance(x, ast.Call) and isinstance(x.func, ast.Name) and x.func.id == fname for x in ast.walk(n)):
+                    isinstance(x, ast.Call) and isinstance(x.func, ast.Name) and x.func.id == fname
+                    for a in list(n.args) + [k.value for k in n.keywords] for x in ast.walk(tcn.expr(a))):
                 return "merge"
             return None
         paths2, _ = event_paths(None, ev2, body=loops[0].body, may_raise=lambda n: None, cap=12)
